@@ -131,6 +131,15 @@ func c17Sequential(c *vk.Ctx) {
 		for i := range keys {
 			keys[i] = fmt.Sprintf("key-%d", i)
 		}
+		if h%5 == 1 {
+			// short numeric ids (as Outline issues them) and addresses that differ by a trailing digit:
+			// (10.0.0.1, "23") and (10.0.0.12, "3") are different clients of different keys
+			b := byte(1 + r.Intn(9))
+			ips = []net.IP{net.IPv4(10, 0, 0, b).To4(), net.IPv4(10, 0, 0, b*10+2).To4(), net.ParseIP(fmt.Sprintf("2001:db8::%d", b)), net.ParseIP(fmt.Sprintf("2001:db8::%d2", b))}
+			keys = []string{"23", "3", "2", "1"}
+			nIP, nKey = len(ips), len(keys)
+			c.Count("histories_with_concatenation_prone_ids", 1)
+		}
 		acc := &c17Account{map[ipKey]int{}, map[ipKey]time.Duration{}, map[ipKey]time.Duration{}}
 		var open []*c17Tunnel
 		nOps := 10 + r.Intn(c.N(120, 300))
@@ -528,6 +537,7 @@ func init() {
 			c.Require("e2e_scrapes_checked")
 			c.Require("simultaneous_first_open_rounds")
 			c.Require("zoned_clients")
+			c.Require("histories_with_concatenation_prone_ids")
 			c.Require("e2e_udp_shutdown_cases")
 			c17Sequential(c)
 			c17Concurrent(c)
